@@ -124,6 +124,24 @@ ASSUMPTIONS = [
     "APPLICATIONS, their guards and their constructor arguments are kept "
     "exactly)",
 ]
+# rules/c11_absorb.py (R11.23)
+EXPLANATION += (
+    "  R11.23 (rules/c11_absorb.py) absorbing a parameter's mutation "
+    "(remove_mutable) keeps the declared type on every path: for every "
+    "visitor of pytd/optimize.py whose VisitParameter reads "
+    "<node>.mutated_type (AbsorbMutableParameters) each return is the visited "
+    "parameter itself or <node>.Replace(type=J, mutated_type=None) where J is "
+    "a join - pytd_utils.JoinTypes([..]) / pytd.UnionType((..)) over a "
+    "list/tuple display - whose members include BOTH <node>.type and "
+    "<node>.mutated_type (through once-bound locals, conditional expressions "
+    "arm by arm, one-return helpers of the class or module with the arguments "
+    "substituted); a type built without one of the two (the mutated type "
+    "taken directly on a fast path: x: list[int] mutated to "
+    "list[Union[str, bytes]] would no longer admit [1, 2]) is a violation, "
+    "any other return an analysis error.  Blind spots: that JoinTypes itself "
+    "widens (R11.3 looks at its Any arm) and what CombineContainers does with "
+    "the union afterwards are not decided here.")
+
 # rules/c11_latch.py (R11.20)
 EXPLANATION += (
     "  R11.20 (rules/c11_latch.py) first-value latches: a local initialised "
